@@ -162,6 +162,19 @@ func DiscoverCtxOps(p *Prog, T *Terms, pkg string) []*CtxOp {
 							}
 						case ssa.CallInstruction:
 							cc := x.Common()
+							// the helper may signal completion by closing a channel (the outcome is then handed over in
+							// memory it wrote before the close)
+							if bi, isB := cc.Value.(*ssa.Builtin); isB && bi.Name() == "close" && len(cc.Args) == 1 {
+								if m := chanOrigin(T, cc.Args[0]); m != nil {
+									if op.Chan != nil && op.Chan != m {
+										op.Problems = append(op.Problems, "helper signals on more than one channel")
+									}
+									op.Chan = m
+								} else {
+									op.Problems = append(op.Problems, "helper closes a channel not created by the operation")
+								}
+								continue
+							}
 							name := ""
 							var recvT types.Type
 							if cc.IsInvoke() {
@@ -286,4 +299,21 @@ func deadlineSetterKind(c *ssa.CallCommon) string {
 		return "both"
 	}
 	return ""
+}
+
+// closes: the helper signals completion by closing the channel instead of sending on it.
+func (op *CtxOp) closes() bool {
+	if op.Closure == nil {
+		return false
+	}
+	for _, b := range op.Closure.Blocks {
+		for _, in := range b.Instrs {
+			if c, ok := in.(*ssa.Call); ok {
+				if bi, isB := c.Call.Value.(*ssa.Builtin); isB && bi.Name() == "close" {
+					return true
+				}
+			}
+		}
+	}
+	return false
 }
